@@ -487,8 +487,13 @@ fn wide_job(ctx: &Ctx, job: usize, histories: u64) -> Stats {
                         trace.push(format!("{}.complement({})", ["A", "B"][*w], ["A", "B"][*o]));
                     }
                 }
+                // after every step: the element just touched and a few others; after the last: all
+                let last = trace.len() == ops2.len();
                 for s in 0..2 {
-                    for e in &pool2 {
+                    for (k, e) in pool2.iter().enumerate() {
+                        if !last && e != x && (k + trace.len()) % 5 != 0 {
+                            continue;
+                        }
                         let got = if user_type { sets[s].contains(Wide(*e)) } else { sets[s].contains(*e as usize) };
                         if got != refs[s].contains(e) {
                             return Err((trace.clone(), s, *e, got));
@@ -523,7 +528,7 @@ pub fn run(ctx: &Ctx) -> (Stats, Spec) {
     let iters = ctx.tier.pick(300u64, 30_000u64);
     let parts = util::par_jobs(16, |job| {
         let mut s = random_job(ctx, job, iters);
-        s.merge(wide_job(ctx, job, iters / 6));
+        s.merge(wide_job(ctx, job, ctx.tier.pick(40u64, 600u64)));
         if job == 0 {
             s.merge(long_lived_env_job(ctx, ctx.tier.pick(1_400_000usize, 5_000_000usize)));
         }
